@@ -84,6 +84,7 @@ func (ap *app) conduct(ctx context.Context) (err error) {
 	var finalErr error
 	var interrupt bool
 	// First stage of shutdown: wait for the prompter to finish.
+	verifPoint("conduct.stage1")
 	select {
 	case err := <-th.prErrCh:
 		finalErr = combineErrors(err, finalErr)
@@ -114,6 +115,7 @@ func (ap *app) conduct(ctx context.Context) (err error) {
 	promptDone() // in case not called before.
 
 	// Second stage: wait for the spotlights to finish.
+	verifPoint("conduct.stage2")
 	select {
 	case err := <-th.spotErrCh:
 		finalErr = combineErrors(err, finalErr)
@@ -139,6 +141,7 @@ func (ap *app) conduct(ctx context.Context) (err error) {
 	allSpotsDone() // in case not called before.
 
 	// Third stage: wait for the auditors to finish.
+	verifPoint("conduct.stage3")
 	select {
 	case err := <-th.auErrCh:
 		finalErr = combineErrors(err, finalErr)
@@ -159,6 +162,7 @@ func (ap *app) conduct(ctx context.Context) (err error) {
 	auDone() // in case not called before.
 
 	// Fourth stage: wait for the collector to finish.
+	verifPoint("conduct.stage4")
 	finalErr = combineErrors(ignCancel(<-th.colErrCh), finalErr)
 	wgcol.Wait()
 	colDone() // in case not called before.
